@@ -557,6 +557,22 @@ func (env *Env) trCall(x ECall) TV {
 			return tv
 		}
 		env.fail("ret(%s): no such call site seen before this point", key)
+	case "const":
+		// const("go/token.EOF"): the value of a Go integer constant
+		name := args[0].(EStr).Val
+		i := strings.LastIndex(name, ".")
+		for _, p := range eng.prog.AllPackages() {
+			if p.Pkg.Path() == name[:i] {
+				if c, ok := p.Pkg.Scope().Lookup(name[i+1:]).(*types.Const); ok {
+					v := c.Val().ExactString()
+					if strings.HasPrefix(v, "-") {
+						v = "(- " + v[1:] + ")"
+					}
+					return TV{T: v, S: "Int", G: c.Type()}
+				}
+			}
+		}
+		env.fail("unknown constant %s", name)
 	case "global":
 		name := args[0].(EStr).Val
 		i := strings.LastIndex(name, ".")
